@@ -283,6 +283,9 @@ pub fn install_panic_capture() {
         } else {
             String::new()
         };
+        if std::env::var("VERIF_PANIC_PRINT").is_ok() {
+            eprintln!("panic: {msg} @ {loc}{bt}");
+        }
         if let Ok(mut g) = LAST_PANIC.lock() {
             *g = Some(format!("{msg} @ {loc}{bt}"));
         }
